@@ -47,12 +47,15 @@ pub fn battery() -> Vec<(Prof, u8, String, String)> {
 pub fn results() -> Vec<String> {
     battery()
         .iter()
-        .map(|(p, k, a, b)| match k {
-            0 => fmt_res(&imp_prepare(*p, a)),
-            1 => fmt_res(&imp_enforce(*p, a)),
-            2 => format!("{:?}", imp_compare(*p, a, b)),
-            3 => fmt_res(&imp_rule(*p, RuleKind::Case, a)),
-            _ => fmt_res(&imp_rule(*p, RuleKind::Width, a)),
+        .map(|(p, k, a, b)| {
+            guard(|| match k {
+                0 => fmt_res(&imp_prepare(*p, a)),
+                1 => fmt_res(&imp_enforce(*p, a)),
+                2 => format!("{:?}", imp_compare(*p, a, b)),
+                3 => fmt_res(&imp_rule(*p, RuleKind::Case, a)),
+                _ => fmt_res(&imp_rule(*p, RuleKind::Width, a)),
+            })
+            .unwrap_or_else(|pn| format!("<<panic: {}>>", pn.lines().next().unwrap_or("")))
         })
         .collect()
 }
